@@ -318,8 +318,8 @@ class Folder(FileSystemItemABC):
         file.restore()
         self.files[file.uuid] = file
 
-        if file.deleted:
-            self.deleted_files.pop(file.uuid)
+        # a restored file is live again: it no longer belongs to the deleted files
+        self.deleted_files.pop(file.uuid, None)
         return True
 
     def quarantine(self):
